@@ -973,9 +973,13 @@ impl<D: Distance> Writer<D> {
         to_insert: &RoaringBitmap,
         frozen_reader: &FrozzenReader<D>,
     ) -> Result<Vec<(TmpNodesReader, RoaringBitmap)>> {
+        #[cfg(feature = "verif-hooks")]
+        crate::verif::par_begin(roots.len());
         repeatn(rng.next_u64(), roots.len())
             .zip(roots)
             .map(|(seed, root)| {
+                #[cfg(feature = "verif-hooks")]
+                let _task = crate::verif::task_scope(*root);
                 opt.cancelled()?;
                 tracing::debug!("started updating tree {root:X}...");
                 let mut rng = R::seed_from_u64(seed.wrapping_add(*root as u64));
